@@ -17,6 +17,6 @@ TMAP = ['--map', r'^@_ZN6photon13thread_createEPFPvS0_ES0_m[a-z]+$=verif_thread_
 def jobs(tier):
     q = tier == 'quick'
     J = []
-    J.append(ksjob('oc_2users_1key', SRC, 2, int(os.environ.get('C19_SLICES', '7')), ['ONE_KEY'], desc='2 users of one key: construct / share / release / recycle', stuck_legal=False, timeout=1800, unwind=3, mem_gb=10, extra_ir2c=TMAP, shims=['c19_stubs.c']))
+    J.append(ksjob('oc_2users_1key', SRC, 2, 7, ['ONE_KEY'], desc='2 users of one key: construct / share / release / recycle', stuck_legal=False, timeout=1800, unwind=3, mem_gb=10, extra_ir2c=TMAP, shims=['c19_stubs.c']))
     J.append(ksjob('oc_2users_expire', SRC, 3, 9, ['ONE_KEY', 'NO_RECYCLE'], desc='2 users of one key + timer-driven expire() at an arbitrary point', stuck_legal=False, timeout=1500, unwind=5, mem_gb=12, extra_ir2c=TMAP, shims=['c19_stubs.c']))
     return J
